@@ -103,6 +103,27 @@ def generate(rng, tier):
             host["ops"].insert(rng.randint(0, len(host["ops"])), nested)
             scenario = {"start": start, "roots": "direct", "resources": {}, "actors": actors}
         runs.append({"kind": kind, "scenario": scenario})
+    if rng.random() < 0.15:
+        # two replications around module-level flags: the first leaves an until-block over a
+        # connective of them that never held, the second sets one of the flags
+        kind = rng.choice(["and", "or"])
+        first = {"start": 0, "roots": "direct", "share_conditions": True,
+                 "resources": {"F1": {"kind": "flag"}, "F2": {"kind": "flag"}},
+                 "actors": [{"name": "r0", "ops": [
+                     {"op": "scope", "label": "U", "children": [],
+                      "until": {"k": kind, "xs": [{"k": "flag", "n": "F1"}, {"k": "flag", "n": "F2"}]},
+                      "body": [{"op": "sleep", "d": rng.choice([0.5, 1, 2])}]},
+                     {"op": "now"}]}]}
+        setter = "F1" if kind == "and" or rng.random() < 0.5 else "F2"
+        second = {"start": 0, "roots": "direct", "share_conditions": True,
+                  "resources": {"F1": {"kind": "flag"}, "F2": {"kind": "flag"}},
+                  "actors": [{"name": "r0", "ops": [
+                      {"op": "sleep", "d": 1}, {"op": "flag_set", "on": setter, "to": True},
+                      {"op": "sleep", "d": 1}, {"op": "now"},
+                      {"op": "flag_set", "on": setter, "to": False}]}]}
+        where = rng.randint(0, len(runs))
+        runs.insert(where, {"kind": "flags", "scenario": first})
+        runs.insert(rng.randint(where + 1, len(runs)), {"kind": "flags", "scenario": second})
     oks = [run for run in runs if run["kind"] == "ok"]
     if oks and rng.random() < 0.4:
         # replications: the same program again, with its time conditions being the very same
@@ -212,6 +233,16 @@ def _check_run(bad, index, kind, scenario, rec):
                 bad("ok-run:" + violation["rule"], "run %d: %s" % (index, violation["msg"]))
         finally:
             rec.case = rec_case
+    elif kind == "flags":
+        if rec.outcome != ("ok",):
+            bad("replication-outcome", "run %d (module-level flags shared with an earlier run) "
+                "ended with %r" % (index, rec.outcome))
+        for actor in roots:
+            if not any(ev[3] == actor and ev[4] == "end" for ev in rec.trace):
+                bad("replication-outcome", "run %d: root %s never finished" % (index, actor))
+        strangers = [ev for ev in rec.trace if ev[3] not in roots and ev[3] != "root"]
+        if strangers:
+            bad("foreign-activity", "run %d: %r acted in this run" % (index, strangers[0][3:6]))
     elif kind in ("fail", "leak"):
         if first_bad is None:
             bad("harness", "run %d: no failing event generated" % index)
